@@ -259,7 +259,7 @@ def run(ctx):
         why = oracle_mra(c, io)
         if why:
             ctx.violation('moment_reduction_array: ' + why, {'stream': 'mra', 'case': c, 'observed': io, 'model': mo})
-    if (not ctx.lean.ok or ctx.disagreements) and not ctx.violations and not ctx.known_hits:
+    if (not ctx.lean.ok or ctx.disagreements) and not ctx.violations:
         common.broken_report(ctx, 'exact expansion of s*h found no failing input among %d cases' % ctx.evaluations)
     return ctx.finish(
         level='proof',
